@@ -30,7 +30,7 @@ def main(tier):
     payload = [dict(schema=corpus.SCHEMA_K, doc_text=o.doc_text, op_name=o.name, uses_var=o.uses_var, options={}, checks=["c05"],
                     bound=1 if tier == "quick" else 2, max_runs=200 if tier == "quick" else 600) for o in ops]
     # configured custom scalar (pydantic-native type): must be exactly as strict as the type, also inside fragment classes
-    conf = [o for o in ops if "blob" in o.text or "FCamel" in o.text or "wrapper" in o.tags and False]
+    conf = [o for o in ops if "blob" in o.text or "FCamel" in o.text or "wkind:blb" in o.tags]
     conf += [corpus.build_op(f"Conf{i}", pos, pt, tag, items) for i, (pos, pt, tag, items) in enumerate([
         ("user", "User", "user", [corpus.Item("...FCamel", {"spread"}, {"FCamel"})]),
         ("user", "User", "user", [corpus.Item("friend { ...FCamel }", {"composite_field"}, {"FCamel"})]),
@@ -39,15 +39,27 @@ def main(tier):
     ])]
     nplain = len(ops)
     ops = ops + conf
+    # second schema family (interfaces implementing interfaces, unions of implementers, custom roots) and its typed spread matrix
+    k2 = corpus.k2_ops() + corpus.k2_matrix()
     payload += [dict(schema=corpus.SCHEMA_K, doc_text=o.doc_text, op_name=o.name, uses_var=o.uses_var, options={"scalars": {"Blob": {"type": "int"}}}, checks=["c05"],
                      configured_scalars={"Blob": "int"}, scalar_values={"Blob": 5}, bound=1, max_runs=100) for o in conf]
+    ops = ops + k2
+    payload += [dict(schema=corpus.SCHEMA_K2, doc_text=o.doc_text, op_name=o.name, uses_var=False, kwargs_list=corpus.k2_kwargs(o), options={}, checks=["c05"],
+                     bound=1 if tier == "quick" else 2, max_runs=100 if tier == "quick" else 400) for o in k2]
     results = pool.run_cases(opcheck.evaluate_op, payload, timeout=600, progress=500)
     stats = dict(operations=len(ops), invalid_ops=0, skipped_generation_failures=0, responses=0, corruptions=0, annotations=0)
     kinds = set()
     distinct = 0
-    for o, (st, r) in zip(ops, results):
-        case_desc = {"schema": "K", "query": o.doc_text}
-        feats = features.op_features(schema, o.doc_text) if (st != "ok" or r.get("problems")) or rep.triage else set()
+    for i_, (o, (st, r)) in enumerate(zip(ops, results)):
+        k2f = "family:K2" in o.tags
+        case_desc = {"schema": "K2" if k2f else "K", "query": o.doc_text}
+        feats = (set(features.op_features(corpus.schema_k2() if k2f else schema, o.doc_text)) | (set(t for t in o.tags if t != "family:K2") if k2f else set())) \
+            if (st != "ok" or r.get("problems")) or rep.triage else set()
+        if feats is not None and "wrapper" in o.tags:
+            configured = nplain <= i_ < nplain + len(conf)
+            feats = set(feats) | {t for t in o.tags if t.startswith(("wkind:", "shape:"))} | ({"scalar_cfg:type"} if configured else set())
+            if "wkind:blb" in o.tags and not configured:
+                feats.add("unconfigured_scalar@" + next(t for t in o.tags if t.startswith("shape:")))
         if rep.triage:
             rep.seen(feats)
         if st != "ok":
@@ -91,9 +103,12 @@ def replay(path):
     genpkg.warm()
     from graphql import parse
     doc = parse(case["query"])
-    name = next(d.name.value for d in doc.definitions if d.kind == "operation_definition")
+    name = [d.name.value for d in doc.definitions if d.kind == "operation_definition"][-1]
     c = dict(schema=corpus.SCHEMA_K, doc_text=case["query"], op_name=name, uses_var="$v" in case["query"], options={}, checks=["c05"], bound=2, max_runs=300,
              keep_per_clause=50)
+    if case.get("schema") == "K2":
+        o = next(x for x in corpus.k2_ops() + corpus.k2_matrix() if x.name == name)
+        c.update(schema=corpus.SCHEMA_K2, uses_var=False, kwargs_list=corpus.k2_kwargs(o))
     st, r = pool.run_forked(opcheck.evaluate_op, c)
     hits = [p for p in (r or {}).get("problems", []) if p[0] == rec["clause"]]
     print(st, (r or {}).get("status"), (r or {}).get("problem_counts"))
